@@ -15,8 +15,8 @@
    The first half of C01_full, "what the loader returns is canonical", is false on the recorded classes
    (C01_reload_identity_refuted) and PROVED outside them: C01_loader_canonical, with the decidable tree predicate
    RoundTripCanon.knownb; the property as stated is C01_reload_identity.
-   MISSING, named: (1) trees whose root carries a non-canonical xsi:schemaLocation text (serialize rewrites it: the
-   re-loaded tree equals the REWRITTEN one; set_version is not shown to preserve RootCanon); lenient loads WITH warnings
+   MISSING, named: (1) [closed since: C01_set_version_canon, C01_reload_rewritten - for a root whose xsi:schemaLocation
+   text is not the canonical one, serialize rewrites it and the re-loaded tree equals the REWRITTEN tree]; lenient loads WITH warnings
    (nothing is claimed about their trees); (2) RootCanon states the header attributes semantically (parse_file_header
    returns ver silently on them; rootcanonb evaluates that).
    For the recorded classes there is a positive statement, not only the refutation: what IS read back -
@@ -26,7 +26,7 @@ From AV Require Import Base.Bytes Base.Outcome Base.Utf8 Hash.HashModel Spec.Spe
   Xml.Lexer Xml.Parser Xml.Serializer Xml.LexerProofs Xml.Escape Xml.RoundTripValues Xml.RoundTripAttrs
   Xml.RoundTripLexer Xml.StrictValidDef Xml.ParserDepth Xml.RoundTripElem Xml.RoundTripFile Xml.TablesOk
   Xml.RoundTripCanonValues Xml.RoundTripCanon Xml.Utf8Closure Xml.RoundTripCanonFinal Xml.RoundTripCanonb Xml.RoundTripLexerComment Xml.ParserExamples Xml.RoundTripExamples
-  Xml.RoundTripReload Xml.RoundTripReloadExamples.
+  Xml.RoundTripReload Xml.RoundTripReloadExamples Xml.RoundTripSetVersion.
 From AV Require Import Spec.SpecTypes.
 From AV Require Import Spec.SpecReal Hash.HashRealElement Hash.HashRealAttr Hash.HashRealEnum.
 Open Scope list_scope.
@@ -395,3 +395,62 @@ Theorem C01_amp_pattern_example :
   | None => False
   end.
 Proof. exact amp_pattern_real. Qed.
+
+(* ---------- the schemaLocation rewrite of ArxmlFile::serialize (Xml/RoundTripSetVersion.v) ---------- *)
+(* [U] the rewrite changes nothing, or the value of the root's xsi:schemaLocation attribute only *)
+Theorem C01_set_version_shape :
+  forall (T : tables) (tab_at : nametab) (check_fn : N -> list N -> res bool) (ver : N) (t t' : etree),
+  set_version T tab_at check_fn ver t = Val t' ->
+  t' = t \/
+  exists name ty attrs content cm a value,
+    t = ENode name ty attrs content cm /\ t' = ENode name ty (set_attr a (DString value) attrs) content cm /\
+    from_bytes tab_at (BS "xsi:schemaLocation") = Ok a /\ schema_location_value ver = Val value.
+Proof. exact set_version_shape. Qed.
+
+(* [U] it keeps canonical roots canonical (both modes) and is idempotent - every table set; the facts about the canonical
+   texts (plain, no blank at an end, UTF-8, parse back to their version) are evaluated over the version list *)
+Theorem C01_set_version_canon :
+  forall (T : tables) (tab_el tab_at tab_en : nametab) (check_fn : N -> list N -> res bool)
+         (float_fmt : N -> list N) (float_parse : list N -> option N) (ver : N) (t t' : etree),
+  RootCanon true T tab_el tab_at tab_en check_fn float_fmt float_parse ver t ->
+  set_version T tab_at check_fn ver t = Val t' ->
+  (forall s, RootCanon s T tab_el tab_at tab_en check_fn float_fmt float_parse ver t') /\
+  set_version T tab_at check_fn ver t' = Val t'.
+Proof. exact set_version_canon. Qed.
+
+(* [U] C01_reload_identity without the premise on the root's spelling: load -> serialize -> load returns the rewritten
+   tree t' (= t for the canonical spelling), silently, same version, and serializing t' gives the same bytes.  The premise
+   set_version = Val t' only says that the rewrite did not stop (it can only for a Pattern-typed attribute whose
+   validator panics; the real attribute is String-typed). *)
+Theorem C01_reload_rewritten :
+  forall (T : tables) (tab_el tab_at tab_en : nametab) (check_fn : N -> list N -> res bool)
+         (float_fmt : N -> list N) (float_parse : list N -> option N),
+       canon_hyps T tab_el tab_at tab_en float_fmt float_parse ->
+       forall (b : bool) (bs : list N) (t : etree) (st : pstate) (t' : etree),
+       load b T tab_el tab_at tab_en check_fn float_parse bs = Val (Ret t st) ->
+       p_warnings st = [] ->
+       knownb T t = false ->
+       set_version T tab_at check_fn (p_version st) t = Val t' ->
+       forall sa : option bool,
+       exists bs' : list N,
+         serialize_file T tab_el tab_at tab_en check_fn float_fmt (p_version st) sa t = Val bs' /\
+         (exists st' : pstate,
+            load b T tab_el tab_at tab_en check_fn float_parse bs' = Val (Ret t' st') /\
+            p_warnings st' = [] /\
+            p_version st' = p_version st /\
+            p_standalone st' = sa /\
+            serialize_file T tab_el tab_at tab_en check_fn float_fmt (p_version st') sa t' = Val bs').
+Proof. exact reload_rewritten. Qed.
+
+(* [F] on the real tables: a root with the spelling "... autosar_00050.xsd more" loads silently, outside the recorded
+   classes, and is read back as set_version of it, with "... AUTOSAR_00050.xsd" *)
+Theorem C01_rewritten_example :
+  match reload_of doc_lower_xsd with
+  | Some (t, ver, t') =>
+    knownb RT t = false /\ set_version RT tab_attr accept_all ver t = Val t' /\
+    existsb (bytes_eqb (BS "http://autosar.org/schema/r4.0 autosar_00050.xsd more")) (root_attr_texts t) = true /\
+    existsb (bytes_eqb (BS "http://autosar.org/schema/r4.0 autosar_00050.xsd more")) (root_attr_texts t') = false /\
+    existsb (bytes_eqb (BS "http://autosar.org/schema/r4.0 AUTOSAR_00050.xsd")) (root_attr_texts t') = true
+  | None => False
+  end.
+Proof. exact rewritten_real. Qed.
